@@ -47,7 +47,8 @@ def run(ctx):
     scs = scenarios(thorough)
     results = ctx.harness_parallel("listeners_physical.py", [{"scenarios": [s]} for s in scs], procs=14, timeout=3000)
     traces, notes = [], []
-    laws = {"frame": {"checked": 0, "failed": 0, "examples": []}, "cone": {"checked": 0, "failed": 0, "examples": []}}
+    laws = {"frame": {"checked": 0, "failed": 0, "examples": []}, "cone": {"checked": 0, "failed": 0, "examples": []},
+            "kepler": {"checked": 0, "failed": 0, "examples": []}}
     for r in results:
         traces += r["traces"]
         notes += r["notes"]
@@ -59,6 +60,11 @@ def run(ctx):
                laws["frame"]["failed"])
     ctx.clause("light listener: away from the boundaries (3 km) it agrees with an independent conical-shadow computation", max(laws["cone"]["checked"], 1),
                laws["cone"]["failed"])
+    ctx.clause("on two-body orbits apsides, node crossings and anomaly crossings are at their closed-form times (1 ms)", max(laws["kepler"]["checked"], 1),
+               laws["kepler"]["failed"])
+    for ex in laws["kepler"]["examples"][:4]:
+        ctx.violation("physical/closed-form", f"{ex['scenario']}: {ex['listener']} event '{ex['label']}' at {ex['t_s']:.6f} s is {ex['off_by_s']:.4g} s away from its "
+                                              "closed-form time", ex)
     for ex in laws["frame"]["examples"][:4]:
         ctx.violation("physical/light-frame", f"LightListener({ex['type']}, frame={ex['frame']}) gives {ex['value']} where the default frame gives "
                                               f"{ex['value_default_frame']} ({ex['scenario']} at {ex['t_s']:.0f} s)", ex)
